@@ -5,6 +5,8 @@ one operation can have.  Every invariant of histories is proved against `Effect`
 import TraitsVerif.Model.Delegate
 namespace TraitsVerif.Model.Deleg
 
+deriving instance DecidableEq for Except
+
 /-! ### primitive updates -/
 
 @[simp] theorem setDict_size (p : Pool) (o n v) : (p.setDict o n v).size = p.size := rfl
@@ -73,6 +75,24 @@ theorem walk_ok {p : Pool} {q : Option Name} :
         simp only [Except.ok.injEq, Prod.mk.injEq] at h
         obtain ⟨rfl, rfl, rfl⟩ := h
         exact ⟨rfl, fun d' hd' => hnd d' hd'⟩
+
+/-- One step of the walk that ends on a non-deferring trait. -/
+theorem walk_end {p : Pool} {q : Option Name} {f : Nat} {cur : ObjId} {d : DelegInfo} {da : Name} {x : ObjId}
+    (hy : (p.obj cur).deleg = some x) (hnd : NonDefer ((p.obj x).cls.trait (attrName d q da))) :
+    walk p q (f + 1) cur d da = .ok (x, attrName d q da, (p.obj x).cls.trait (attrName d q da)) := by
+  rw [walk]
+  simp only [hy]
+  cases htd : (p.obj x).cls.trait (attrName d q da) with
+  | defer d' => exact absurd htd (hnd d')
+  | plain a b => rfl
+  | python => rfl
+
+/-- One step of the walk through a deferring trait. -/
+theorem walk_defer {p : Pool} {q : Option Name} {f : Nat} {cur : ObjId} {d : DelegInfo} {da : Name} {x : ObjId}
+    {d' : DelegInfo} (hy : (p.obj cur).deleg = some x) (htd : (p.obj x).cls.trait (attrName d q da) = .defer d') :
+    walk p q (f + 1) cur d da = walk p q f x d' (attrName d q da) := by
+  rw [walk]
+  simp only [hy, htd]
 
 /-- More fuel never changes a successful walk. -/
 theorem walk_mono {p : Pool} {q : Option Name} :
